@@ -47,6 +47,40 @@ ROUND 3 (histories, failure paths, process order, consumers, rare classes):
   away from Greenwich; exact bounds (+-90, +-180, -12/14, +-360); leap year first; 29 Feb on both year kinds; refused
   dates / hours / minutes of the year; Location without zone; solar-time flag.
 
+ROUND 4 (override gaps, aliasing, conventions, numeric edges, input shapes, rare branches):
+* Every concrete class of date-time argument: ladybug DateTime (leap / non-leap, on a sunpath of the same or the other
+  year kind) AND native `datetime.datetime` of any year 1950-2050 (the `except AttributeError` float-hour branch, the
+  general-year branch of `_days_from_010119`, the conversion to a 2016 DateTime on a leap-year sunpath): model
+  `Sun.sunOfNative` (Model/SunExt.lean; driver op `sun_py`), oracle op `pydt` (ephemeris of the true year; same sun as
+  the DateTime of the same instant; label and flags).
+* Daylight-saving hours of `calculate_sun_from_date_time` (`hour - 1`; with the solar-time flag in the first clock hour
+  the ONLY public way into the `sol_time < 0` arm of the hour-angle line): model `Sun.sunOfDTDst` (driver op `sun_dst`,
+  the flag derived by the harness from the period's minutes of the year), oracle op `dst` (the sun of the reading one hour
+  earlier, by the ephemeris and by the object without a period; outside the period nothing changes; `is_daylight_saving`).
+  Whether an hour IS a daylight-saving hour for exotic periods stays with C11.
+* Conventions between the anchored functions (kind g): `Sun(...)` flags (`is_solar_time`, `is_daylight_saving`,
+  `north_angle` in degrees) are checked on every sun of the entry / pydt / dst / sunvec oracles; leap vs common-year
+  minute / hour of the year through every entry point; month/day vs minute of year; degrees vs radians through getters.
+* Input shapes (kind i): every number of the constructor / the setters also as TEXT (repr, exponent notation, padded,
+  signed, underscore, full-width digits) and as int / bool; minute of the year as int, float, text; whole hours as int;
+  `is_solar_time` as 0/1; Location through EVERY way `Sunpath.from_location` accepts: Location object (constructor with
+  numbers or text, setters, duplicate, dict round trip, partial dict in unsorted insertion order, `Autocalculate` zone,
+  IDF round trip, hand-written IDF text with comments / exponents / plus signs), IDF string, `key: value` string, bare
+  city name, None / '', Revit-style object.
+* Aliasing (kind f): every container returned (analemma lists, the 24 hourly lists) is emptied / extended in place and
+  the question asked again; results kept across later calls on the same and on another object must not change; `Sun.data`
+  set on one sun must not show on another; the dict given to `Location.from_dict` and the Location given to
+  `Sunpath.from_location` are not modified / not kept; every kept Sun of a history is re-read at the end.
+  (The sunpath API takes no sequence arguments, so there is no one-shot-iterable argument to feed.)
+* Branches of the anchored functions (kind j) are COUNTED: a census runs a slice of the oracle under `sys.settrace`
+  and records, for every `if` / `else` / `except` / loop arm of the anchored functions of sunpath.py and location.py
+  (found by `ast`), whether it was reached: counters `branch:<function>:<source line>` / `branch_unreached:...`;
+  conditional EXPRESSIONS (no line of their own) are counted from the inputs: `branchx:tz_none`, `branchx:dst_hour`,
+  `branchx:soltime_negative`, `branchx:native_datetime`, `branchx:leap_conversion`, `branchx:refraction:*`,
+  `branchx:azimuth_from_y:*`, `branchx:pole_nudge`.  Unreachable through the public API: the Python-2 `xrange` line,
+  `_calculate_solar_time_by_doy` (raises NotImplementedError first), and - without a daylight-saving period - the
+  `sol_time < 0` arm.
+
 The independent ephemeris below is the low-precision algorithm of The Astronomical Almanac (section C,
 "Low precision formulas for the Sun's coordinates", 1950-2050) with Saemundsson's refraction formula;
 nothing of it is taken from NOAA's series or from ladybug.
@@ -60,7 +94,7 @@ from harness.core import err_name, run_oracle_cases
 
 PROP = 'C05'
 PROOF_MODULES = ['Ladybug.Props.C05', 'Ladybug.Proofs.C05Gen']
-GREP_MODULES = ['Ladybug.Gen.SunFormulas', 'Ladybug.Py', 'Ladybug.Transc', 'Ladybug.RealInst', 'Ladybug.Model.Cal', 'Ladybug.Model.Sun', 'Ladybug.Model.SunObj',
+GREP_MODULES = ['Ladybug.Gen.SunFormulas', 'Ladybug.Py', 'Ladybug.Transc', 'Ladybug.RealInst', 'Ladybug.Model.Cal', 'Ladybug.Model.Sun', 'Ladybug.Model.SunObj', 'Ladybug.Model.SunExt',
                 'Ladybug.Proofs.CalLemmas', 'Ladybug.Props.C08', 'Ladybug.Proofs.C05Real', 'Ladybug.Proofs.C05Lemmas', 'Ladybug.Proofs.C05Obj', 'Ladybug.Drv.C05', 'Ladybug.DrvCore']
 RULE = ('correspondence: Float instance of the model vs the real functions at the public API '
         '(calculate_sun, _from_hoy, _from_moy, _from_date_time -> datetime, altitude, azimuth, sun_vector, '
@@ -80,7 +114,12 @@ RULE = ('correspondence: Float instance of the model vs the real functions at th
         'state machine vs the object step by step, and used object = fresh object of the established state = ephemeris; '
         'consumers (analemmas, positions, arcs) report the producer\'s suns; from_location over all ways of making a '
         'Location; refused calls stay refused; 3-4 fresh subprocesses run one slice in different orders (rare classes '
-        'first) and must agree bit for bit')
+        'first) and must agree bit for bit; ROUND 4: native datetime.datetime of the years 1900-2150 (model) / 1950-2050 '
+        '(ephemeris) next to ladybug DateTimes; daylight-saving hours (period ends, first clock hour with the solar-time flag); '
+        'numbers as text / int / bool through the constructor, the setters, the minute of the year and every Location route '
+        '(IDF text, key:value text, dict in unsorted order, Revit-style object, None); constructor defaults and keywords; '
+        'returned containers edited in place and asked again; a census of the branch arms of the anchored functions '
+        '(counters branch:* / branch_unreached:*)')
 TRUSTED_BASE = [
     'translator tools/extract/pyexpr2lean.py + sun_formulas.py: that the emitted Lean expression denotes the Python '
     'expression (every generated piece is also run by the driver through the model it is proved equal to)',
@@ -93,7 +132,9 @@ TRUSTED_BASE = [
     'independent ephemeris is sampled on the real code, not a theorem',
     'the independent ephemeris (Astronomical Almanac low-precision Sun + Saemundsson refraction, in this file) is '
     'the reference for the sampled sub-claim; its own stated precision is 0.01 deg (1950-2050)',
-    'daylight saving is not exercised here (C11)',
+    'daylight saving: that an hour is a daylight-saving hour is derived by the harness from the period\'s start / end minute '
+    'of the year (start inclusive, end exclusive, wrapping periods) for hour-aligned periods of the sunpath\'s own year kind; '
+    'everything else about daylight saving is C11\'s',
     'the object state machine (Model/SunObj.lean) is hand-written; it is tied to the code by the step-by-step history '
     'correspondence only (generated histories of this run); methods other than setters/reads/getters are modelled as '
     'state-neutral and their own results are not modelled (analemma suns are compared with the producer by the oracle)',
@@ -101,7 +142,13 @@ TRUSTED_BASE = [
 ASSUMPTIONS = ['years 2016 (leap) / 2017 (normal) as fixed by ladybug DateTime',
                'is_solar_time suns are compared with the ephemeris only for time zones within one hour of '
                'longitude/15 (the code evaluates the declination at the clock time of the configured zone; '
-               'zones further than 1 h away are the known finding C05-solar-time-depends-on-time-zone)']
+               'zones further than 1 h away are the known finding C05-solar-time-depends-on-time-zone)',
+               'daylight-saving hours (outside the property\'s quantifier; C11 owns which hours they are): the sun of a '
+               'reading inside the period is taken to be the sun of the reading one hour earlier, for clock-time AND for '
+               'solar-time readings (the code subtracts the hour in both cases; with the solar-time flag this makes '
+               '"12:00" the sun of 11:00 solar time - recorded here as the code\'s convention, not judged)',
+               'native datetime.datetime arguments: whole minutes, no tzinfo (the code ignores seconds and tzinfo); on a '
+               'leap-year sunpath a native date-time of any year stands for the same month/day/hour/minute of 2016']
 
 TOL = 1e-9
 
@@ -208,6 +255,109 @@ def _show_sun(s):
         d.month, d.day, d.hour, d.minute, _b(d.leap_year), _fbits(s.altitude), _fbits(s.azimuth),
         _fbits(v.x), _fbits(v.y), _fbits(v.z), _fbits(r.x), _fbits(r.y), _fbits(r.z),
         _b(s.is_during_day), _fbits(s.azimuth_from_y_axis))
+
+
+def _dt_leap(d):
+    """Year kind of the date-time a Sun carries (ladybug DateTime or native datetime)."""
+    lp = getattr(d, 'leap_year', None)
+    if lp is None:
+        import calendar
+        lp = calendar.isleap(d.year)
+    return bool(lp)
+
+
+def _show_sun_y(s):
+    """`_show_sun` for a sun whose date-time may be a native datetime: the year first."""
+    d = s.datetime
+    v, r = s.sun_vector, s.sun_vector_reversed
+    return '%d ok %d %d %d %d %s %s %s %s %s %s %s %s %s %s %s' % (
+        d.year, d.month, d.day, d.hour, d.minute, _b(_dt_leap(d)), _fbits(s.altitude), _fbits(s.azimuth),
+        _fbits(v.x), _fbits(v.y), _fbits(v.z), _fbits(r.x), _fbits(r.y), _fbits(r.z),
+        _b(s.is_during_day), _fbits(s.azimuth_from_y_axis))
+
+
+# daylight-saving periods (month, day, hour, month, day, hour): northern, southern (wrapping the year end), whole
+# year, one month, one day
+DSPS = [(3, 12, 2, 11, 5, 2), (3, 8, 2, 11, 1, 2), (10, 4, 2, 4, 5, 3), (1, 1, 0, 12, 31, 23), (12, 1, 0, 1, 31, 23),
+        (6, 1, 0, 6, 30, 23), (2, 28, 0, 3, 1, 0), (7, 4, 0, 7, 4, 23)]
+
+
+_AP_CACHE = {}
+
+
+def _dsp_period(dsp, leap):
+    """The AnalysisPeriod of a daylight-saving period.  Kept per (period, year kind): `Sunpath.is_daylight_saving_hour`
+    tests the period's truth value, i.e. `len(period)`, which enumerates all its hours (12 ms) the first time."""
+    from ladybug.analysisperiod import AnalysisPeriod
+    key = (tuple(dsp), bool(leap))
+    if key not in _AP_CACHE:
+        if len(_AP_CACHE) > 400:
+            _AP_CACHE.clear()
+        _AP_CACHE[key] = AnalysisPeriod(dsp[0], dsp[1], dsp[2], dsp[3], dsp[4], dsp[5], 1, bool(leap))
+    return _AP_CACHE[key]
+
+
+def _rand_dsp(rng):
+    if rng.random() < 0.98:
+        return rng.choice(DSPS)
+    while True:
+        d = (rng.randrange(1, 13), rng.randrange(1, 29), rng.randrange(24), rng.randrange(1, 13),
+             rng.randrange(1, 29), rng.randrange(24))
+        if d[:3] != d[3:]:
+            return d
+
+
+def _dsp_moys(leap, dsp):
+    y = 2016 if leap else 2017
+    f = lambda mo, da, h: int((datetime(y, mo, da, h) - datetime(y, 1, 1)).total_seconds() // 60)
+    return f(*dsp[:3]), f(*dsp[3:])
+
+
+def _dst_flag(leap, dsp, moy):
+    """Is the clock reading `moy` inside the daylight-saving period (start inclusive, end exclusive; a period whose
+    start lies after its end wraps the year end)?"""
+    st, en = _dsp_moys(leap, dsp)
+    return (st <= moy or moy < en) if st > en else (st <= moy < en)
+
+
+def _rand_dst_moy(rng, leap, dsp, bm):
+    st, en = _dsp_moys(leap, dsp)
+    n = 1440 * _ydays(leap)
+    r = rng.random()
+    if r < 0.2:
+        return (st + rng.choice([-1, 0, 1, 59, 60, 61])) % n
+    if r < 0.4:
+        return (en + rng.choice([-61, -60, -1, 0, 1])) % n
+    if r < 0.65:
+        return rng.randrange(_ydays(leap)) * 1440 + rng.randrange(60)          # the first clock hour
+    return _rand_moy(rng, leap, bm)
+
+
+NATIVE_YEARS = [2016, 2017, 2017, 2015, 2018, 2019, 2020, 2021, 2024, 2000, 1999, 1950, 2050]
+
+
+def _rand_native(rng, bm, lo=1950, hi=2050):
+    """A native datetime (whole minute) of a year in lo..hi, biased to the boundaries of the calendar."""
+    import calendar
+    y = rng.choice(NATIVE_YEARS) if rng.random() < 0.6 else rng.randrange(lo, hi + 1)
+    y = max(lo, min(hi, y))
+    lp = calendar.isleap(y)
+    return datetime(y, 1, 1) + timedelta(minutes=_rand_moy(rng, lp, bm))
+
+
+def _as_text(rng, v):
+    """One of the texts `float()` reads as the number v (exactly: repr / 17 significant digits)."""
+    x = float(v)
+    forms = [repr(x), '%.17g' % x, '%.17e' % x, ' %r ' % x, '\t%r\n' % x]
+    if not repr(x).startswith('-'):
+        forms.append('+%r' % x)
+    if x == int(x) and abs(x) < 1e6 and not repr(x).startswith('-0'):
+        forms += [str(int(x)), '%d.' % int(x), '%d.000' % int(x)]
+        if abs(x) >= 10:
+            t = str(int(x))
+            forms.append(t[:-1] + '_' + t[-1])                                  # 1_0
+            forms.append(''.join(chr(0xFF10 + int(ch)) if ch.isdigit() else ch for ch in t))   # full-width digits
+    return rng.choice(forms)
 
 
 _HEX = set('0123456789abcdef')
@@ -428,6 +578,13 @@ def correspondence(ctx):
         ctx.count('sun:day' if s.altitude >= 0 else 'sun:night')
         a = s.altitude
         ctx.count('refraction:' + ('>85' if a > 85 else '5..85' if a > 5.2 else '-0.575..5' if a > 0 else '<=-0.575'))
+        ctx.count('branchx:azimuth:' + ('afternoon' if s.azimuth > 180 else 'morning'))
+        ctx.count('branchx:leap_conversion:' + ('taken' if c[0][4] and not c[2] else 'not_taken'))
+        ctx.count('branchx:tz_none' if c[0][2] is None else 'branchx:tz_number')
+        if abs(c[0][0]) == 90:
+            ctx.count('branchx:pole_nudge')
+        ay = s.azimuth - c[0][3]
+        ctx.count('branchx:azimuth_from_y:' + ('>360' if ay > 360 else '<0' if ay < 0 else 'plain'))
         return _show_sun(s)
 
     _compare(ctx, 'sun', cases,
@@ -459,6 +616,14 @@ def correspondence(ctx):
             hoy = rng.choice([8760.0, 8784.0, 8783.99, 8759.995, 9000.0])
         if hoy >= 0:
             cases.append((c, rng.random() < 0.2, hoy))
+    # round 4 (kind h): every sub-hourly step of the twelve valid timesteps over the last two hours of both year kinds
+    # (where hoy * 60 is an inexact float product), given as the quotient a caller would form
+    for lp in (False, True):
+        c0 = (rng.uniform(-60.0, 60.0), rng.uniform(-180.0, 180.0), rng.choice(TZS), 0.0, lp)
+        for ts in (1, 2, 3, 4, 5, 6, 10, 12, 15, 20, 30, 60):
+            for k in range(2 * ts):
+                cases.append((c0, False, (_ydays(lp) * 24 - 2) + k / ts))
+                ctx.count('hoy:far_end_substep')
     _compare(ctx, 'sun_hoy', cases,
              lambda c: 'sun_hoy %s %s %s' % (_cfg_toks(c[0]), _b(c[1]), _fbits(c[2])),
              lambda c: _show_sun(_sunpath(c[0]).calculate_sun_from_hoy(c[2], c[1])), circ)
@@ -473,6 +638,56 @@ def correspondence(ctx):
              lambda c: 'sun_moy %s %s %d' % (_cfg_toks(c[0]), _b(c[1]), c[2]),
              lambda c: _show_sun(_sunpath(c[0]).calculate_sun_from_moy(c[2], c[1])), circ)
 
+    # --- round 4: a native datetime.datetime of any year (float-hour fallback, general-year day count, conversion to
+    #     the 2016 DateTime on a leap-year sunpath; daylight saving cannot be combined: `.moy` is missing)
+    cases = []
+    for _ in range(ctx.n(5000, 50000)):
+        c = _rand_cfg(rng)
+        r = _rand_native(rng, bm, 1900, 2150) if rng.random() < 0.2 else _rand_native(rng, bm)
+        cases.append((c, rng.random() < 0.25, r.year, r.month, r.day, r.hour, r.minute))
+        ctx.count('branchx:native_datetime')
+        ctx.count('branchx:leap_conversion:' + ('taken' if c[4] and r.year != 2016 else 'not_taken'))
+        ctx.count('branchx:days_year:' + ('2017' if r.year == 2017 else '2016' if r.year == 2016 else 'general'))
+
+    def impl_py(c):
+        s = _sunpath(c[0]).calculate_sun_from_date_time(datetime(c[2], c[3], c[4], c[5], c[6]), c[1])
+        return _show_sun_y(s)
+
+    _compare(ctx, 'sun_py', cases,
+             lambda c: 'sun_py %s %s 0 %d %d %d %d %d' % (_cfg_toks(c[0]), _b(c[1]), c[2], c[3], c[4], c[5], c[6]),
+             impl_py, (8, 16))
+
+    # --- round 4: daylight-saving hours (hour - 1), clock and solar time, period ends, the first clock hour
+    #     (solar time below zero: the `sol_time < 0` arm of the hour angle)
+    cases = []
+    for _ in range(ctx.n(5000, 50000)):
+        c = _rand_cfg(rng)
+        dsp = _rand_dsp(rng)
+        solar = rng.random() < 0.4
+        m = _rand_dst_moy(rng, c[4], dsp, bm)
+        flag = _dst_flag(c[4], dsp, m)
+        cases.append((c, solar, dsp, m, flag))
+        ctx.count('branchx:dst_hour:' + ('yes' if flag else 'no'))
+        if flag and solar and m % 1440 < 60:
+            ctx.count('branchx:soltime_negative')
+
+    def impl_dst(c):
+        cfg, solar, dsp, m, flag = c
+        sp = _sunpath(cfg)
+        sp.daylight_saving_period = _dsp_period(dsp, cfg[4])
+        r = _ref(cfg[4], m)
+        s = sp.calculate_sun_from_date_time(DateTime(r.month, r.day, r.hour, r.minute, cfg[4]), solar)
+        if bool(s.is_daylight_saving) != flag:
+            return 'ok is_daylight_saving=%r' % (s.is_daylight_saving,)
+        return _show_sun(s)
+
+    def line_dst(c):
+        r = _ref(c[0][4], c[3])
+        return 'sun_dst %s %s %s %s %d %d %d %d' % (_cfg_toks(c[0]), _b(c[1]), _b(c[4]), _b(c[0][4]), r.month, r.day,
+                                                    r.hour, r.minute)
+
+    _compare(ctx, 'sun_dst', cases, line_dst, impl_dst, circ)
+
     # --- the Sun object built directly (exact boundary altitudes / azimuths / north angles, rejections)
     alts = [0.0, -0.0, 5e-324, -5e-324, 1e-12, -1e-12, 90.0, -90.0, 45.0, -45.0, 5.0, 85.0, -0.575, 90.0000001,
             -90.0000001, 30.0]
@@ -484,6 +699,9 @@ def correspondence(ctx):
                       rng.choice(nos) if rng.random() < 0.5 else rng.uniform(-360.0, 360.0)))
     _compare(ctx, 'vec', cases, lambda c: 'vec %s %s %s' % (_fbits(c[0]), _fbits(c[1]), _fbits(c[2])),
              lambda c: _show_sun(Sun(DateTime(1, 1, 0, 0), c[0], c[1], False, False, c[2])), circ)
+
+    # --- round 4: which arms of the anchored functions does the generated stream reach (counted in evidence)
+    _branch_census(ctx, zenith_cases)
 
     # --- histories on one object, step by step against the model's object state machine (Sun.Obj / Sun.step)
     hists = [_gen_history(rng, bm, False) for _ in range(ctx.n(1500, 10000))]
@@ -566,7 +784,11 @@ def _sun_from(inp):
 def _eph_expect(lat, lon, etz, leap, moy, solar):
     """Ephemeris geometric altitude / azimuth for the instant named by (leap, moy) in zone `etz` (hours), or, with
     `solar`, the instant at which the local apparent solar time at `lon` equals the clock reading."""
-    r = _ref(leap, moy)
+    return _eph_expect_at(lat, lon, etz, _ref(leap, moy), solar)
+
+
+def _eph_expect_at(lat, lon, etz, r, solar):
+    """The same for the reading `r` (a stdlib datetime of ANY year; whole minutes)."""
     clock = r.hour + r.minute / 60.0
     jd = _jd0(r.year, r.month, r.day) + (clock - etz) / 24.0
     if solar:
@@ -580,15 +802,17 @@ def _eph_expect(lat, lon, etz, leap, moy, solar):
     return h, az
 
 
-def _eph_verdict(h, az, altitude, azimuth):
-    """The statement's first clause on one reported (altitude, azimuth): None | (what, required, observed)."""
+def _eph_verdict(h, az, altitude, azimuth, extra=0.0):
+    """The statement's first clause on one reported (altitude, azimuth): None | (what, required, observed).
+    `extra`: additional slack in degrees (daylight-saving hours: the code takes the declination one hour late)."""
     lo, hi = _expected_altitude_band(h)
+    lo, hi = lo - extra, hi + extra
     if not (lo <= altitude <= hi):
         return ('altitude', 'altitude in [%.5f, %.5f] (ephemeris geometric altitude %.5f)' % (lo, hi, h),
                 'altitude %.5f azimuth %.5f' % (altitude, azimuth))
     sep = _circ(azimuth, az) * math.cos(math.radians(h))
-    if sep > AZ_TOL:
-        return ('azimuth', 'azimuth %.5f within %.2f/cos(alt) (altitude %.4f)' % (az, AZ_TOL, h),
+    if sep > AZ_TOL + extra:
+        return ('azimuth', 'azimuth %.5f within %.2f/cos(alt) (altitude %.4f)' % (az, AZ_TOL + extra, h),
                 'azimuth %.5f' % azimuth)
     if not (0.0 <= azimuth <= 360.0):
         return ('azimuth-range', 'azimuth in [0, 360]', azimuth)
@@ -620,8 +844,20 @@ def _check_ephemeris(inp):
 
 def _sun_key(s):
     d = s.datetime
-    return (d.month, d.day, d.hour, d.minute, d.leap_year, s.altitude, s.azimuth, s.sun_vector.x, s.sun_vector.y,
+    return (d.month, d.day, d.hour, d.minute, _dt_leap(d), s.altitude, s.azimuth, s.sun_vector.x, s.sun_vector.y,
             s.sun_vector.z, s.is_during_day)
+
+
+def _sun_flags(s, solar, dst, north):
+    """What a Sun says about itself (kind g: the arguments of `Sun(...)` in their places): the solar-time flag it was
+    asked with, the daylight-saving flag, the north angle in degrees.  None | (what, required, observed)."""
+    if bool(s.is_solar_time) != bool(solar) or not isinstance(s.is_solar_time, (bool, int)):
+        return 'is_solar_time', bool(solar), s.is_solar_time
+    if bool(s.is_daylight_saving) != bool(dst) or not isinstance(s.is_daylight_saving, (bool, int)):
+        return 'is_daylight_saving', bool(dst), s.is_daylight_saving
+    if not _near(s.north_angle, float(north)):
+        return 'north_angle', float(north), s.north_angle
+    return None
 
 
 def _check_entry(inp):
@@ -638,13 +874,166 @@ def _check_entry(inp):
         'mdh': sp.calculate_sun(r.month, r.day, r.hour + r.minute / 60.0, solar),
         'datetime': sp.calculate_sun_from_date_time(DateTime(r.month, r.day, r.hour, r.minute, leap), solar),
     }
+    # round 4, input shapes: the minute of the year as float and as text, whole hours as int, the flag as 0 / 1,
+    # a native datetime of the sunpath's year
+    flag = 1 if solar else 0
+    suns['moy_float'] = sp.calculate_sun_from_moy(float(moy), flag)
+    suns['moy_text'] = sp.calculate_sun_from_moy(str(moy), solar)
+    if moy % 60 == 0:
+        suns['hoy_int'] = sp.calculate_sun_from_hoy(moy // 60, solar)
+        suns['mdh_int'] = sp.calculate_sun(r.month, r.day, r.hour, flag)
+    native = sp.calculate_sun_from_date_time(datetime(r.year, r.month, r.day, r.hour, r.minute), solar)
     base = _sun_key(suns['datetime'])
-    for name, s in suns.items():
+    if _sun_key(native) != base:
+        return {'required': base, 'observed': _sun_key(native), 'sig': {'entry': 'native-datetime', 'what': 'sun'}}
+    for name, s in list(suns.items()) + [('native-datetime', native)]:
         k = _sun_key(s)
         if k[:5] != want_dt:
             return {'required': want_dt, 'observed': k[:5], 'sig': {'entry': name, 'what': 'datetime'}}
-        if k != base or s != suns['datetime']:
+        if k != base or (name != 'native-datetime' and s != suns['datetime']):
             return {'required': base, 'observed': k, 'sig': {'entry': name, 'what': 'sun'}}
+        bad = _sun_flags(s, solar, False, inp.get('north', 0.0))
+        if bad:
+            return {'required': '%s %r' % (bad[0], bad[1]), 'observed': repr(bad[2]), 'sig': {'entry': name, 'what': bad[0]}}
+    return None
+
+
+def _check_pydt(inp):
+    """A NATIVE datetime.datetime handed to calculate_sun_from_date_time: the sun of that instant of that year (of 2016
+    on a leap-year sunpath) by the ephemeris; labelled with the reading; the same sun as the ladybug DateTime of the
+    same instant where one exists (2016 / 2017)."""
+    from ladybug.dt import DateTime
+    sp = _sun_from(inp)
+    leap, solar = bool(inp.get('leap')), bool(inp.get('solar'))
+    y, mo, d, h, mi = inp['y'], inp['mo'], inp['d'], inp['h'], inp['mi']
+    yy = 2016 if (leap and y != 2016) else y
+    lat, lon = inp['lat'], inp['lon']
+    etz = _eff_tz(lon, inp.get('tz'))
+    sig = {'class': 'native', 'year': 'sunpath-year' if y in (2016, 2017) else 'other-year', 'solar': solar,
+           'converted': yy != y}
+    s = sp.calculate_sun_from_date_time(datetime(y, mo, d, h, mi), solar)
+    dd = s.datetime
+    if (dd.year, dd.month, dd.day, dd.hour, dd.minute) != (yy, mo, d, h, mi):
+        return {'required': 'a sun labelled %d-%02d-%02d %02d:%02d' % (yy, mo, d, h, mi), 'observed': str(dd),
+                'sig': dict(sig, what='datetime')}
+    if not (solar and abs(etz - lon / 15.0) > 1.0):
+        hh, az = _eph_expect_at(lat, lon, etz, datetime(yy, mo, d, h, mi), solar)
+        bad = _eph_verdict(hh, az, s.altitude, s.azimuth)
+        if bad:
+            return {'required': bad[1], 'observed': bad[2], 'sig': dict(sig, what='ephemeris-' + bad[0])}
+    bad = _sun_flags(s, solar, False, inp.get('north', 0.0))
+    if bad:
+        return {'required': '%s %r' % (bad[0], bad[1]), 'observed': repr(bad[2]), 'sig': dict(sig, what=bad[0])}
+    bad = _vector_facts(s.altitude, s.azimuth, inp.get('north', 0.0), s, tol=1e-9)
+    if bad:
+        return {'required': bad[1], 'observed': bad[2], 'sig': dict(sig, what='vector-' + bad[0])}
+    if yy in (2016, 2017):
+        t = _sun_from(inp).calculate_sun_from_date_time(DateTime(mo, d, h, mi, yy == 2016), solar)
+        df = _sun_diff(s, t)
+        if df:
+            return {'required': 'the sun of DateTime(%d, %d, %d, %d, leap_year=%s): %s %r'
+                                % (mo, d, h, mi, yy == 2016, df[0], df[1]),
+                    'observed': '%s %r' % (df[0], df[2]), 'sig': dict(sig, what='differs-from-DateTime', observable=df[0])}
+    return None
+
+
+CTOR_SHAPES = ('none', 'lat', 'lat_lon', 'lat_lon_tz', 'kw_lon', 'kw_tz_north', 'kw_all', 'location_default_north')
+
+
+def _check_defaults(inp):
+    """Every way of calling the constructor (arguments left to their documented defaults: latitude 0, longitude 0, zone
+    None = the longitude's solar zone, north 0; keywords in any order; from_location without a north angle) gives the
+    suns of the fully spelt-out call, and calls that leave the solar-time flag out are clock-time suns."""
+    from ladybug.sunpath import Sunpath
+    from ladybug.location import Location
+    lat, lon, tz, north = inp['lat'], inp['lon'], inp.get('tz'), inp.get('north', 0.0)
+    leap, moy, shape = bool(inp.get('leap')), inp['moy'], inp['shape']
+    if shape == 'none':
+        sp, cfg = Sunpath(), (0.0, 0.0, None, 0.0)
+    elif shape == 'lat':
+        sp, cfg = Sunpath(lat), (lat, 0.0, None, 0.0)
+    elif shape == 'lat_lon':
+        sp, cfg = Sunpath(lat, lon), (lat, lon, None, 0.0)
+    elif shape == 'lat_lon_tz':
+        sp, cfg = Sunpath(lat, lon, tz), (lat, lon, tz, 0.0)
+    elif shape == 'kw_lon':
+        sp, cfg = Sunpath(longitude=lon), (0.0, lon, None, 0.0)
+    elif shape == 'kw_tz_north':
+        sp, cfg = Sunpath(north_angle=north, time_zone=tz), (0.0, 0.0, tz, north)
+    elif shape == 'kw_all':
+        sp, cfg = Sunpath(north_angle=north, time_zone=tz, longitude=lon, latitude=lat, daylight_saving_period=None), (lat, lon, tz, north)
+    elif shape == 'location_default_north':
+        ltz = float(round(lon / 15.0)) if tz is None else tz
+        sp, cfg = Sunpath.from_location(Location('c', None, None, lat, lon, ltz)), (lat, lon, ltz, 0.0)
+    else:
+        raise ValueError('unknown constructor shape %r' % (shape,))
+    sig = {'shape': shape}
+    if sp.is_leap_year is not False or sp.daylight_saving_period is not None:
+        return {'required': 'a new sunpath is a common-year one without daylight saving',
+                'observed': (sp.is_leap_year, sp.daylight_saving_period), 'sig': dict(sig, what='initial-state')}
+    sp.is_leap_year = leap
+    ref = _sunpath(cfg + (leap,))
+    etz = _eff_tz(cfg[1], cfg[2])
+    r = _ref(leap, moy)
+    for name, a in (('moy', sp.calculate_sun_from_moy(moy)), ('hoy', sp.calculate_sun_from_hoy(moy / 60.0)),
+                    ('mdh', sp.calculate_sun(r.month, r.day, r.hour + r.minute / 60.0))):
+        d = _sun_diff(a, ref.calculate_sun_from_moy(moy, False))
+        if d:
+            return {'required': 'the sun of Sunpath%r: %s %r' % (cfg, d[0], d[1]), 'observed': '%s %r' % (d[0], d[2]),
+                    'sig': dict(sig, what=d[0], entry=name)}
+        bad = _sun_flags(a, False, False, cfg[3])
+        if bad:
+            return {'required': '%s %r' % (bad[0], bad[1]), 'observed': repr(bad[2]), 'sig': dict(sig, what=bad[0], entry=name)}
+        h, az = _eph_expect(cfg[0], cfg[1], etz, leap, moy, False)
+        bad = _eph_verdict(h, az, a.altitude, a.azimuth)
+        if bad:
+            return {'required': bad[1], 'observed': bad[2], 'sig': dict(sig, what='ephemeris-' + bad[0], entry=name)}
+    return None
+
+
+def _check_dst(inp):
+    """A sunpath with a daylight-saving period: inside the period the sun of a clock (or solar-time) reading is the sun
+    of the reading one hour earlier - by the ephemeris and by the same sunpath without a period -, outside it nothing
+    changes; the Sun says which of the two it is.  (Which hours belong to the period: start inclusive, end exclusive.)"""
+    from ladybug.dt import DateTime
+    leap, solar = bool(inp.get('leap')), bool(inp.get('solar'))
+    dsp, moy = inp['dsp'], inp['moy']
+    lat, lon = inp['lat'], inp['lon']
+    etz = _eff_tz(lon, inp.get('tz'))
+    flag = _dst_flag(leap, dsp, moy)
+    sp = _sun_from(inp)
+    sp.daylight_saving_period = _dsp_period(dsp, leap)
+    r = _ref(leap, moy)
+    sig = {'dst': flag, 'solar': solar, 'first_hour': moy % 1440 < 60}
+    s = sp.calculate_sun_from_date_time(DateTime(r.month, r.day, r.hour, r.minute, leap), solar)
+    dd = s.datetime
+    if (dd.month, dd.day, dd.hour, dd.minute, _dt_leap(dd)) != (r.month, r.day, r.hour, r.minute, leap):
+        return {'required': 'a sun labelled with the reading %s' % r, 'observed': str(dd), 'sig': dict(sig, what='datetime')}
+    bad = _sun_flags(s, solar, flag, inp.get('north', 0.0))
+    if bad:
+        return {'required': '%s %r' % (bad[0], bad[1]), 'observed': repr(bad[2]), 'sig': dict(sig, what=bad[0])}
+    plain = _sun_from(inp)
+    if not flag:
+        df = _sun_diff(s, plain.calculate_sun_from_date_time(DateTime(r.month, r.day, r.hour, r.minute, leap), solar))
+        if df:
+            return {'required': 'outside the period the sun of the sunpath without one: %s %r' % (df[0], df[1]),
+                    'observed': '%s %r' % (df[0], df[2]), 'sig': dict(sig, what='outside-period')}
+    rr = r - timedelta(minutes=60) if flag else r
+    if not (solar and abs(etz - lon / 15.0) > 1.0):
+        hh, az = _eph_expect_at(lat, lon, etz, rr, solar)
+        bad = _eph_verdict(hh, az, s.altitude, s.azimuth, extra=0.02 if flag else 0.0)
+        if bad:
+            return {'required': bad[1] + (' (the reading one hour earlier: %s)' % rr if flag else ''), 'observed': bad[2],
+                    'sig': dict(sig, what='ephemeris-' + bad[0])}
+    if flag and rr.year == r.year and abs(lat) < 89.9:
+        # the same sunpath without a period, asked for the reading one hour earlier (its declination is taken one hour
+        # earlier: 0.017 deg, stretched by refraction near the horizon)
+        t = plain.calculate_sun_from_date_time(DateTime(rr.month, rr.day, rr.hour, rr.minute, leap), solar)
+        da = abs(s.altitude - t.altitude)
+        dz = _circ(s.azimuth, t.azimuth) * math.cos(math.radians(t.altitude))
+        if da > 0.05 or dz > 0.05:
+            return {'required': 'the sun of %s without a period within 0.05 deg: alt %.5f az %.5f' % (rr, t.altitude, t.azimuth),
+                    'observed': 'alt %.5f az %.5f' % (s.altitude, s.azimuth), 'sig': dict(sig, what='one-hour-earlier')}
     return None
 
 
@@ -777,18 +1166,19 @@ SETTERS = {'set_lat': 'lat', 'set_lon': 'lon', 'set_tz': 'tz', 'set_north': 'nor
 READS = ('moy', 'hoy', 'mdh', 'dt')
 BOUNDS = {'lat': (-90.0, 90.0), 'lon': (-180.0, 180.0), 'tz': (-12.0, 14.0), 'north': (-360.0, 360.0)}
 VALID_VALUES = {
-    'lat': LATS + [0, 90, -90, 45, -0.0],
-    'lon': LONS + [0, 180, -180, -0.0, 15],
-    'tz': TZS + [0, -0.0, None, None, None, 14, -12, 0.0],
-    'north': NORTHS + [0, 360, -360, -0.0],
+    'lat': LATS + [0, 90, -90, 45, -0.0, 1e-12, -5e-324],
+    'lon': LONS + [0, 180, -180, -0.0, 15, 1e-12, 5e-324],
+    'tz': TZS + [0, -0.0, None, None, None, 14, -12, 0.0, 1e-12, -1e-300],
+    'north': NORTHS + [0, 360, -360, -0.0, 1e-12, -5e-324],
 }
 INVALID_VALUES = {
-    'lat': [90.0000001, -90.0000001, 91, -180.0, 1000.0],
-    'lon': [180.0000001, -180.0000001, 181, 360.0, -1000.0],
-    'tz': [14.0000001, -12.0000001, 15, -13, 24.0],
-    'north': [360.0000001, -360.0000001, 361, 720.0, -1000.0],
+    'lat': [90.0000001, -90.0000001, 91, -180.0, 1000.0, 1e16, -1e308],
+    'lon': [180.0000001, -180.0000001, 181, 360.0, -1000.0, 1e16, -1e308],
+    'tz': [14.0000001, -12.0000001, 15, -13, 24.0, 1e16, -1e308],
+    'north': [360.0000001, -360.0000001, 361, 720.0, -1000.0, 1e16, -1e308],
 }
-UNPARSABLE = ['abc', '', [], {}]
+UNPARSABLE = ['abc', '', [], {}, '1,5', '12:30', '1e', '--1', '0x10', ' ']
+TEXT_INVALID = ['nan', 'inf', '-inf', '1e400', '-1e400', 'NaN', 'Infinity', '1000', '-1e3']      # float() reads them, the range check refuses
 
 
 def _parse_num(v):
@@ -928,9 +1318,11 @@ def _gen_setter(rng, st):
     if r < 0.7:
         v = rng.choice(VALID_VALUES[f]) if rng.random() < 0.6 else rng.uniform(*BOUNDS[f])
     elif r < 0.9:
-        v = rng.choice(INVALID_VALUES[f])
+        v = rng.choice(INVALID_VALUES[f] + TEXT_INVALID)
     else:
         v = rng.choice(UNPARSABLE)
+    if isinstance(v, (int, float)) and not isinstance(v, bool) and rng.random() < 0.2:
+        v = _as_text(rng, v) if rng.random() < 0.8 else bool(rng.random() < 0.5)      # numbers as text / as bool
     return ['set_' + f, v]
 
 
@@ -966,6 +1358,12 @@ def _rare_init(rng):
     lon = rng.choice([0, 0.0, -0.0, 180, -180, -21.9, 120]) if rng.random() < 0.5 else rng.uniform(-180.0, 180.0)
     tz = rng.choice([0, 0.0, -0.0, 0, 14, -12, None])
     north = rng.choice([0, 0.0, -0.0, 360, -360, 90])
+    if rng.random() < 0.4:            # round 4: the constructor's numbers as text / bool
+        lat, lon, north = [_as_text(rng, v) if rng.random() < 0.6 else v for v in (lat, lon, north)]
+        if tz is not None and rng.random() < 0.6:
+            tz = _as_text(rng, tz)
+        if rng.random() < 0.15:
+            north = rng.choice([True, False])
     return lat, lon, tz, north
 
 
@@ -1115,9 +1513,9 @@ def _near(a, b, tol=TOL, circular=False):
 def _sun_diff(a, b):
     """First observable in which two Sun objects differ (None when they agree)."""
     da, db = a.datetime, b.datetime
-    if (da.month, da.day, da.hour, da.minute, da.leap_year) != (db.month, db.day, db.hour, db.minute, db.leap_year):
-        return 'datetime', (db.month, db.day, db.hour, db.minute, db.leap_year), \
-            (da.month, da.day, da.hour, da.minute, da.leap_year)
+    if (da.month, da.day, da.hour, da.minute, _dt_leap(da)) != (db.month, db.day, db.hour, db.minute, _dt_leap(db)):
+        return 'datetime', (db.month, db.day, db.hour, db.minute, _dt_leap(db)), \
+            (da.month, da.day, da.hour, da.minute, _dt_leap(da))
     if not _near(a.altitude, b.altitude):
         return 'altitude', b.altitude, a.altitude
     if not _near(a.azimuth, b.azimuth, circular=True) and abs(b.altitude) < 89.999:
@@ -1192,6 +1590,7 @@ def _check_history(inp):
         return None
 
     pending = None
+    kept = []                      # every sun the object has handed out, with what it said when it was handed out
     for n, op in enumerate(ops + [['get']]):
         k = op[0]
         if pending is not None:
@@ -1217,6 +1616,7 @@ def _check_history(inp):
                             'as a fresh Sunpath of the established state %r: %s' % (st, fexc or 'a sun'),
                             uexc or 'a sun', entry=k)
             if uexc is None:
+                kept.append((n, used, _sun_key(used)))
                 d = _sun_diff(used, fresh)
                 if d:
                     return fail(n, 'read-differs-from-fresh',
@@ -1273,6 +1673,10 @@ def _check_history(inp):
                             % (g[0], g[1], 'raised %s' % type(exc).__name__ if exc else 'returned', g[2]),
                             method=k, field=g[0], refused=exc is not None)
             last = k + (':raised' if exc else '')
+    for n, sun, key in kept:       # kind f: a result handed out earlier is not touched by anything that followed
+        if _sun_key(sun) != key:
+            return {'required': 'the sun returned at step %d stays as returned: %r' % (n, key),
+                    'observed': 'it now reads %r' % (_sun_key(sun),), 'sig': {'what': 'earlier-result-changed'}}
     return None
 
 
@@ -1310,14 +1714,61 @@ def _check_consumers(inp):
         if d:
             return {'required': 'the sun of %d/%d %d:%02d: %s %r' % (dd.month, dd.day, h, mi, d[0], d[1]),
                     'observed': '%s %r' % (d[0], d[2]), 'sig': {'what': d[0], 'consumer': 'analemma_suns'}}
+    # round 4, kind f: what was returned stays as returned - after a call on ANOTHER object, after the same call
+    # again, after the caller has emptied / extended the returned list, after `data` was set on one sun
+    snap = [_sun_key(s) for s in got]
+    other = _sun_from(dict(inp, lat=max(-90.0, min(90.0, 10.0 - 0.5 * float(inp['lat']))), tz=None))
+    other.is_leap_year = not leap
+    other.analemma_suns(Time((h + 5) % 24, mi), False, solar, start, end, steps)
+    again = sp.analemma_suns(Time(h, mi), False, solar, start, end, steps)
+    for what, lst in (('first-result-after-later-calls', got), ('second-call', again)):
+        if [_sun_key(s) for s in lst] != snap:
+            return {'required': 'the %d suns first returned' % len(snap),
+                    'observed': '%d suns, first difference at %r' % (
+                        len(lst), next((i for i, (a, b) in enumerate(zip([_sun_key(s) for s in lst], snap)) if a != b), min(len(lst), len(snap)))),
+                    'sig': {'what': 'aliasing', 'consumer': 'analemma_suns', 'case': what}}
+    if again is got:
+        return {'required': 'a new list per call', 'observed': 'the same list object',
+                'sig': {'what': 'aliasing', 'consumer': 'analemma_suns', 'case': 'same-list'}}
+    if again:
+        again[0].data = {'marked': True}
+    del again[:]
+    again.append(None)
+    third = sp.analemma_suns(Time(h, mi), False, solar, start, end, steps)
+    if [_sun_key(s) for s in third] != snap or [_sun_key(s) for s in got] != snap:
+        return {'required': 'the same %d suns after the caller emptied an earlier result' % len(snap),
+                'observed': '%d suns (first result now %d)' % (len(third), len(got)),
+                'sig': {'what': 'aliasing', 'consumer': 'analemma_suns', 'case': 'caller-edit'}}
+    if any(s.data is not None for s in third):
+        return {'required': 'fresh suns carry no data', 'observed': [s.data for s in third][:3],
+                'sig': {'what': 'aliasing', 'consumer': 'Sun.data'}}
+    # kind e / i: the time of day as a ladybug Time, a ladybug DateTime, a native datetime.time, keywords
+    import datetime as _pydt
+    for what, tm in (('DateTime', DateTime(7, 4, h, mi, leap)), ('datetime.time', _pydt.time(h, mi))):
+        alt = sp.analemma_suns(tm, is_solar_time=solar, steps_per_month=steps, end_month=end, start_month=start)
+        if [_sun_key(s) for s in alt] != snap:
+            return {'required': 'the suns of Time(%d, %d)' % (h, mi), 'observed': '%d suns for the time given as %s' % (len(alt), what),
+                    'sig': {'what': 'time-class', 'consumer': 'analemma_suns', 'class': what}}
     dayonly = sp.analemma_suns(Time(h, mi), True, solar, start, end, steps)
     if [s.datetime for s in dayonly] != [s.datetime for s in got if s.altitude >= 0]:
         return {'required': 'daytime_only keeps exactly the suns with altitude >= 0',
                 'observed': [str(s.datetime) for s in dayonly], 'sig': {'what': 'daytime_only', 'consumer': 'analemma_suns'}}
     if inp.get('hourly'):
+        first = sp.hourly_analemma_suns(False, solar, start, end, steps)
+        hsnap = [[_sun_key(s) for s in a] for a in first]
+        if len(set(id(a) for a in first)) != len(first):
+            return {'required': 'one list per hour', 'observed': 'hours share a list',
+                    'sig': {'what': 'aliasing', 'consumer': 'hourly_analemma_suns', 'case': 'shared-inner-list'}}
+        for a in first[::5]:
+            del a[:]
+        first.reverse()
         allh = sp.hourly_analemma_suns(False, solar, start, end, steps)
         if len(allh) != 24:
             return {'required': '24 analemmas', 'observed': len(allh), 'sig': {'what': 'count', 'consumer': 'hourly'}}
+        if [[_sun_key(s) for s in a] for a in allh] != hsnap:
+            return {'required': 'the same 24 analemmas after the caller edited an earlier result',
+                    'observed': [len(a) for a in allh],
+                    'sig': {'what': 'aliasing', 'consumer': 'hourly_analemma_suns', 'case': 'caller-edit'}}
         for hr in (0, h, 23):
             if len(allh[hr]) != len(got):
                 return {'required': '%d suns' % len(got), 'observed': len(allh[hr]),
@@ -1374,6 +1825,27 @@ def _check_consumers(inp):
     return None
 
 
+LOCATION_HOWS = ['ctor', 'setters', 'duplicate', 'dict', 'idf', 'from_location', 'ctor_text', 'idf_string', 'idf_hand',
+                  'kv_string', 'kv_string', 'city_name', 'nothing', 'revit', 'dict_partial', 'dict_partial']
+NUM_FORMATS = ('repr', 'g17', 'e17', 'plus', 'padded', 'upper_e')
+
+
+def _num_text(v, fmt):
+    """The number v as text in one of the spellings `float()` reads back exactly."""
+    x = float(v)
+    if fmt == 'g17':
+        return '%.17g' % x
+    if fmt == 'e17':
+        return '%.17e' % x
+    if fmt == 'upper_e':
+        return '%.17E' % x
+    if fmt == 'plus':
+        return ('+' if x >= 0 and str(x)[0] != '-' else '') + repr(x)
+    if fmt == 'padded':
+        return '  %r\t' % x
+    return repr(x)
+
+
 def _check_location(inp):
     """Sunpath.from_location over every way of making a Location (constructor, setters, duplicate, dict and IDF
     serial forms, Location.from_location) gives the suns of Sunpath(latitude, longitude, time_zone); a Location
@@ -1382,6 +1854,7 @@ def _check_location(inp):
     from ladybug.sunpath import Sunpath
     lat, lon, tz, north = inp['lat'], inp['lon'], inp.get('tz'), inp.get('north', 0.0)
     leap, moy, how = bool(inp.get('leap')), inp['moy'], inp['how']
+    fmt = inp.get('fmt', 'repr')
     etz = float(round(float(lon) / 15.0)) if tz is None else float(tz)
     if how == 'ctor':
         loc = Location('c', '-', 'k', lat, lon, tz, 12.0)
@@ -1396,9 +1869,63 @@ def _check_location(inp):
         loc = Location.from_dict(Location('c', None, None, lat, lon, tz).to_dict())
     elif how == 'idf':
         loc = Location.from_idf(Location('c', None, None, lat, lon, tz).to_idf())
-    else:
+    elif how == 'from_location':
         loc = Location.from_location(Location('c', None, None, lat, lon, tz))
+    # round 4: every other thing Sunpath.from_location accepts, numbers as text in several spellings
+    elif how == 'ctor_text':
+        loc = Location('c', None, None, _num_text(lat, fmt), _num_text(lon, fmt), None if tz is None else _num_text(tz, fmt))
+    elif how == 'idf_string':
+        loc = Location('c', None, None, lat, lon, tz).to_idf()
+    elif how == 'idf_hand':
+        if tz is None:
+            tz = etz
+        loc = ('Site:Location,\n    A city,   !- Name; of the place\n  %s ,  !- Latitude {deg}\n%s,!- Longitude, east\n'
+               '    %s,\n\t%s; !- Elevation {m}' % (_num_text(lat, fmt), _num_text(lon, fmt), _num_text(tz, fmt), _num_text(12.5, fmt)))
+    elif how == 'kv_string':
+        if tz is None:
+            tz = etz
+        loc = 'city: A city, latitude: %s, longitude:%s, time_zone:  %s , elevation: %s' % (
+            _num_text(lat, fmt), _num_text(lon, fmt), _num_text(tz, fmt), _num_text(3, fmt))
+    elif how == 'city_name':
+        loc, lat, lon, etz = 'Somewhere', 0.0, 0.0, 0.0
+    elif how == 'nothing':
+        loc, lat, lon, etz = (None if inp['moy'] % 2 else ''), 0.0, 0.0, 0.0
+    elif how == 'revit':
+        class _Revit(object):
+            Name, Latitude, Longitude = 'Revit, project', lat, lon
+        loc, etz = _Revit(), float(round(float(lon) / 15.0))
+    elif how == 'dict_partial':
+        # unsorted insertion order, keys left out, the time zone asked to be calculated
+        data = {}
+        keys = ['elevation', 'longitude', 'source', 'time_zone', 'latitude', 'type', 'city']
+        if inp['moy'] % 3 == 0:
+            keys.reverse()
+        for k in keys:
+            if k == 'latitude':
+                data[k] = lat
+            elif k == 'longitude':
+                data[k] = lon
+            elif k == 'time_zone':
+                if tz is None and inp['moy'] % 2:
+                    data[k] = {'type': 'Autocalculate'}
+                elif tz is not None:
+                    data[k] = tz
+            elif k == 'type':
+                data[k] = 'Location'
+            elif k == 'elevation' and inp['moy'] % 5:
+                data[k] = {'type': 'Autocalculate'} if inp['moy'] % 7 == 0 else 4
+        before = repr(data)
+        loc = Location.from_dict(data)
+        if repr(data) != before:
+            return {'required': 'from_dict leaves its argument alone', 'observed': repr(data)[:200],
+                    'sig': {'how': how, 'what': 'argument-modified'}}
+    else:
+        raise ValueError('unknown way of making a location %r' % (how,))
+    lat, lon = float(lat), float(lon)
     sp = Sunpath.from_location(loc, north)
+    if isinstance(loc, Location):
+        # kind f: the sunpath keeps numbers, not the Location - editing the Location afterwards changes nothing
+        loc.latitude, loc.longitude, loc.time_zone = -lat * 0.5, -lon * 0.5, 0
     sp.is_leap_year = leap
     ref = Sunpath(float(lat), float(lon), etz, north)
     ref.is_leap_year = leap
@@ -1417,9 +1944,160 @@ def _check_location(inp):
     return None
 
 
+# ---- round 4: census of the branches of the anchored functions (kind j)
+
+ANCHORED_FUNCS = {
+    'sunpath.py': ('Sunpath.__init__', 'Sunpath.from_location', 'Sunpath.latitude', 'Sunpath.longitude', 'Sunpath.time_zone',
+                   'Sunpath.north_angle', 'Sunpath.is_leap_year', 'Sunpath.calculate_sun', 'Sunpath.calculate_sun_from_hoy',
+                   'Sunpath.calculate_sun_from_moy', 'Sunpath.calculate_sun_from_date_time', 'Sunpath.is_daylight_saving_hour',
+                   'Sunpath._calculate_solar_geometry', 'Sunpath._calculate_solar_time', 'Sunpath._calculate_hour_and_minute',
+                   'Sunpath._days_from_010119', 'Sunpath.analemma_suns', 'Sunpath.hourly_analemma_suns', 'Sun.__init__',
+                   'Sun.azimuth_from_y_axis', 'Sun.is_during_day', 'Sun.position_3d', 'Sun.position_2d',
+                   'Sun._calculate_sun_vector'),
+    'location.py': ('Location.__init__', 'Location.from_dict', 'Location.from_location', 'Location.from_idf',
+                    'Location.latitude', 'Location.longitude', 'Location.time_zone', 'Location.elevation'),
+}
+
+
+def _branch_arms(path, wanted):
+    """[(function, first line of the arm, label)] for every if / else / except / loop arm of the wanted functions."""
+    import ast
+    with open(path) as f:
+        src = f.read()
+    lines = src.splitlines()
+    arms = []
+
+    def text(n):
+        return ' '.join(lines[n - 1].split())[:60]
+
+    def visit(fn, qual):
+        for node in ast.walk(fn):
+            if isinstance(node, ast.If):
+                arms.append((qual, node.body[0].lineno, text(node.lineno) + ' -> then'))
+                if node.orelse:
+                    arms.append((qual, node.orelse[0].lineno, text(node.lineno) + ' -> else'))
+            elif isinstance(node, ast.Try):
+                for hd in node.handlers:
+                    arms.append((qual, hd.body[0].lineno, text(hd.lineno)))
+                if node.orelse:
+                    arms.append((qual, node.orelse[0].lineno, text(node.lineno) + ' -> no exception'))
+            elif isinstance(node, (ast.For, ast.While)):
+                arms.append((qual, node.body[0].lineno, text(node.lineno) + ' -> body'))
+    for cls in ast.parse(src).body:
+        if isinstance(cls, ast.ClassDef):
+            for fn in cls.body:
+                if isinstance(fn, ast.FunctionDef) and cls.name + '.' + fn.name in wanted:
+                    visit(fn, cls.name + '.' + fn.name)
+    return arms
+
+
+def _census_cases(ctx):
+    """A slice of every oracle op, rare forms first, plus constructions that reach the refusing arms."""
+    rng = ctx.rng
+    bm = {False: _boundary_moys(False), True: _boundary_moys(True)}
+    for op, inp in CORPUS:
+        yield op, inp
+    for how in LOCATION_HOWS:
+        for tz in (None, 0, 5.5):
+            yield 'location', _cfg_inp(_rand_cfg(rng), tz=tz, moy=rng.randrange(3, 500000), how=how, fmt=rng.choice(NUM_FORMATS))
+    for i in range(30):
+        c = _rand_cfg(rng)
+        m = _rand_moy(rng, c[4], bm)
+        yield 'entry', _cfg_inp(c, moy=m - m % 60 if rng.random() < 0.5 else m, solar=rng.random() < 0.3)
+        r = _rand_native(rng, bm)
+        yield 'pydt', _cfg_inp(c, y=r.year, mo=r.month, d=r.day, h=r.hour, mi=r.minute, solar=False)
+        dsp = _rand_dsp(rng)
+        yield 'dst', _cfg_inp(c, dsp=list(dsp), moy=_rand_dst_moy(rng, c[4], dsp, bm), solar=rng.random() < 0.5 and _solar_ok(c))
+        yield 'sunvec', _cfg_inp(c, moy=m, solar=False)
+        yield 'vector', {'alt': rng.uniform(-90, 90), 'az': rng.uniform(0, 360), 'north': rng.choice(NORTHS)}
+        if i % 2:
+            yield 'history', _gen_history(rng, bm, True)
+    for i in range(4):
+        c = _rand_cfg(rng)
+        yield 'consumers', _cfg_inp(c, hour=rng.randrange(24), minute=0, start=rng.choice([1, 6]), end=12,
+                                    steps=(1, 2, 3, 2)[i], solar=False, hourly=i < 2, arc=True)
+    for shape in CTOR_SHAPES:
+        yield 'defaults', _cfg_inp(_rand_cfg(rng), tz=2.0, moy=rng.randrange(500000), shape=shape)
+    for la in (90.0, -90.0, 90, '-90'):
+        yield 'ephemeris', {'lat': la, 'lon': 10.0, 'tz': 1.0, 'leap': False, 'moy': 250000}
+
+
+def _census_extra():
+    """Calls that only serve to reach the refusing / fall-back arms (their results are judged elsewhere)."""
+    from ladybug.sunpath import Sunpath, Sun
+    from ladybug.location import Location
+    from ladybug.dt import DateTime
+    from ladybug_geometry.geometry2d.pointvector import Point2D
+    calls = [
+        lambda: Sun(DateTime(1, 1, 0, 0), 10.0, 350.0, False, False, -90.0).azimuth_from_y_axis,
+        lambda: Sun(DateTime(1, 1, 0, 0), 10.0, 10.0, False, False, 90.0).azimuth_from_y_axis,
+        lambda: Sun(DateTime(1, 1, 0, 0), 10.0, 10.0, False, False, 0.0).position_2d('Stereographic', Point2D(), 10),
+        lambda: Sun(DateTime(1, 1, 0, 0), 10.0, 10.0, False, False, 0.0).position_2d('orthographic', Point2D(), 10),
+        lambda: Sun(DateTime(1, 1, 0, 0), 10.0, 10.0, False, False, 0.0).position_2d('bad', Point2D(), 10),
+        lambda: Sunpath._calculate_hour_and_minute(11.9999),
+        lambda: Sunpath(10, 20, 1).analemma_suns(DateTime(1, 1, 12, 0).time, True, False, 1, 12, 2),
+        lambda: Sunpath(10, 20, 1).hourly_analemma_suns(True, False, 1, 2, 4),
+        lambda: Location.from_location('Site:Location, x, 1, 2, 3, 4;'),
+        lambda: Location.from_location(12345),
+        lambda: Location('c', elevation=None),
+        lambda: Location('c').__setattr__('elevation', []),
+        lambda: Location.from_idf('Building, x;'),
+        lambda: Sunpath(10, 20, 1).__setattr__('daylight_saving_period', 5),
+    ]
+    for f in calls:
+        try:
+            f()
+        except Exception:
+            pass
+
+
+def _branch_census(ctx, zenith_cases):
+    """Run a slice of the oracle (and the zenith cases of the correspondence) under a line tracer restricted to
+    sunpath.py / location.py and count which arms of the anchored functions were reached."""
+    import os
+    import sys
+    from ladybug.dt import DateTime
+    files = {os.path.join(core.REPO, 'ladybug', name): name for name in ANCHORED_FUNCS}
+    hit = {}
+
+    def local(frame, event, arg):
+        if event == 'line':
+            k = (frame.f_code.co_filename, frame.f_lineno)
+            hit[k] = hit.get(k, 0) + 1
+        return local
+
+    def tracer(frame, event, arg):
+        return local if frame.f_code.co_filename in files else None
+
+    old = sys.gettrace()
+    sys.settrace(tracer)
+    try:
+        for op, inp in _census_cases(ctx):
+            try:
+                check_case(op, inp)
+            except Exception:
+                pass
+        for c in zenith_cases[:400]:
+            try:
+                _sunpath(c[0]).calculate_sun_from_date_time(DateTime(c[3], c[4], c[5], c[6], c[2]), c[1])
+            except Exception:
+                pass
+        _census_extra()
+    finally:
+        sys.settrace(old)
+    for path, name in files.items():
+        for qual, line, label in _branch_arms(path, ANCHORED_FUNCS[name]):
+            n = hit.get((path, line), 0)
+            if n:
+                ctx.count('branch:%s: %s' % (qual, label), n)
+            else:
+                ctx.count('branch_unreached:%s: %s' % (qual, label))
+            ctx.count('branch_arms_reached' if n else 'branch_arms_unreached')
+
+
 # ---- process-order independence (fresh Python subprocesses, different seeded orders of the same cases)
 
-ORDER_OPS = ('ephemeris', 'entry', 'history', 'consumers', 'location', 'sunvec', 'refused')
+ORDER_OPS = ('ephemeris', 'entry', 'history', 'consumers', 'location', 'sunvec', 'refused', 'pydt', 'dst')
 
 
 def _check_refused(inp):
@@ -1452,6 +2130,18 @@ def _fingerprint(op, inp):
             got = _sun_from(inp).analemma_suns(Time(inp['hour'], inp['minute']), False, bool(inp.get('solar')),
                                                inp['start'], inp['end'], inp['steps'])
             return [_fbits(s.altitude) + _fbits(s.azimuth) for s in got]
+        if op == 'pydt':
+            s = _sun_from(inp).calculate_sun_from_date_time(
+                datetime(inp['y'], inp['mo'], inp['d'], inp['h'], inp['mi']), bool(inp.get('solar')))
+            return [_fbits(s.altitude), _fbits(s.azimuth), _fbits(s.sun_vector.x), _fbits(s.sun_vector.z)]
+        if op == 'dst':
+            from ladybug.dt import DateTime
+            sp = _sun_from(inp)
+            sp.daylight_saving_period = _dsp_period(inp['dsp'], bool(inp.get('leap')))
+            r = _ref(bool(inp.get('leap')), inp['moy'])
+            s = sp.calculate_sun_from_date_time(DateTime(r.month, r.day, r.hour, r.minute, bool(inp.get('leap'))),
+                                                bool(inp.get('solar')))
+            return [_fbits(s.altitude), _fbits(s.azimuth), _b(s.is_daylight_saving)]
         if op == 'refused':
             try:
                 _apply_real(_sun_from(inp), inp['call'])
@@ -1553,6 +2243,11 @@ def _order_cases(ctx):
         if not base[4]:
             calls += [['mdh', 2, 29, 12.0, False], ['moy', 525600, False], ['hoy', 8760.0, False]]
         cases.append(['refused', _cfg_inp(base, call=rng.choice(calls))])
+        # round 4: the same reading as a native datetime of several years, and with / without a daylight-saving period
+        for y in (2017, 2016, rng.choice([2019, 2020, 2023, 2024, 1999])):
+            cases.append(['pydt', _cfg_inp(base, y=y, mo=mo, d=da, h=h, mi=mi, solar=False)])
+        for dsp in (DSPS[0], DSPS[2]):
+            cases.append(['dst', _cfg_inp(base, dsp=list(dsp), moy=_moy_of(base[4], mo, da, h, mi), solar=False)])
     for _ in range(ctx.n(40, 150)):
         cases.append(['history', _gen_history(rng, bm, True)])
     return cases
@@ -1687,6 +2382,9 @@ CHECKS = {
     'consumers': (_check_consumers, 'consumers_report_the_producers_suns'),
     'location': (_check_location, 'from_location_same_sun'),
     'refused': (_check_refused, 'refused_calls_are_refused'),
+    'defaults': (_check_defaults, 'constructor_defaults_and_keywords_same_sun'),
+    'pydt': (_check_pydt, 'native_datetime_same_sun_and_ephemeris'),
+    'dst': (_check_dst, 'daylight_saving_hour_is_the_reading_one_hour_earlier'),
     'order': (_check_order, 'process_order_independence'),
 }
 
@@ -1744,6 +2442,21 @@ CORPUS = [
     ('consumers', {'lat': 40.7128, 'lon': -74.006, 'tz': -5.0, 'north': 0.0, 'leap': True, 'hour': 12, 'minute': 0,
                    'start': 1, 'end': 12, 'steps': 1, 'solar': False, 'hourly': True, 'arc': True}),
     ('refused', {'lat': 10.0, 'lon': 20.0, 'tz': 1.0, 'north': 0.0, 'leap': False, 'call': ['mdh', 2, 29, 12.0, False]}),
+    # round 4: native datetimes (other year; leap-year sunpath; half hours), daylight-saving hours (solar time in the
+    # first clock hour = negative solar time; the southern period that wraps the year end), numbers as text
+    ('pydt', {'lat': 40.7128, 'lon': -74.006, 'tz': -5.0, 'north': 0.0, 'leap': False, 'y': 2021, 'mo': 3, 'd': 20, 'h': 9, 'mi': 30, 'solar': False}),
+    ('pydt', {'lat': -33.8688, 'lon': 151.2093, 'tz': 10.0, 'north': 45.5, 'leap': True, 'y': 2019, 'mo': 9, 'd': 23, 'h': 15, 'mi': 45, 'solar': False}),
+    ('pydt', {'lat': 51.5, 'lon': 0.0, 'tz': 0.0, 'north': 0.0, 'leap': False, 'y': 2024, 'mo': 2, 'd': 29, 'h': 12, 'mi': 59, 'solar': True}),
+    ('dst', {'lat': 40.7128, 'lon': -74.006, 'tz': -5.0, 'north': 0.0, 'leap': False, 'dsp': [3, 12, 2, 11, 5, 2], 'moy': 247710, 'solar': False}),
+    ('dst', {'lat': 40.7128, 'lon': -74.006, 'tz': -5.0, 'north': 0.0, 'leap': False, 'dsp': [3, 12, 2, 11, 5, 2], 'moy': 247710 - 9 * 60 + 3, 'solar': True}),
+    ('dst', {'lat': -33.8688, 'lon': 151.2093, 'tz': 10.0, 'north': 0.0, 'leap': True, 'dsp': [10, 4, 2, 4, 5, 3], 'moy': 20, 'solar': True}),
+    ('location', {'lat': 48.85, 'lon': 2.35, 'tz': 1, 'north': 0.0, 'leap': False, 'moy': 218340, 'how': 'kv_string', 'fmt': 'e17'}),
+    ('location', {'lat': -12.05, 'lon': -77.04, 'tz': None, 'north': 0.0, 'leap': True, 'moy': 218341, 'how': 'dict_partial'}),
+    ('location', {'lat': 35.68, 'lon': 139.69, 'tz': 9, 'north': 0.0, 'leap': False, 'moy': 300000, 'how': 'idf_hand', 'fmt': 'upper_e'}),
+    ('location', {'lat': 35.68, 'lon': 139.69, 'tz': None, 'north': 0.0, 'leap': False, 'moy': 300000, 'how': 'revit'}),
+    ('history', {'init': {'lat': '4.5e1', 'lon': ' -74.0 ', 'tz': '-5', 'north': True},
+                 'ops': [['get'], ['mdh', 3, 21, 12.0, False], ['set_lat', '\uff14\uff10'], ['get'], ['set_tz', 'nan'], ['set_tz', '-4.0'],
+                         ['mdh', 3, 21, 12.0, False], ['set_lon', '1_0'], ['set_north', '+0.0'], ['moy', 115770, False]]}),
 ]
 
 
@@ -1789,6 +2502,9 @@ def _oracle_cases(ctx):
     for _ in range(1500 if not big else 20000):
         c = _rand_cfg(rng)
         yield 'entry', _cfg_inp(c, moy=_rand_moy(rng, c[4], bm), solar=rng.random() < 0.2)
+    for _ in range(120 if not big else 1200):          # the far end of the year (inexact hoy products), both year kinds
+        c = _rand_cfg(rng)
+        yield 'entry', _cfg_inp(c, moy=1440 * _ydays(c[4]) - 1 - rng.randrange(180), solar=rng.random() < 0.2)
     # time-zone + clock shift
     for _ in range(1500 if not big else 20000):
         c = _rand_cfg(rng, north=False)
@@ -1840,8 +2556,31 @@ def _oracle_cases(ctx):
         c = _rand_cfg(rng)
         tz = rng.choice([None, 0, 0.0, c[2], c[2], 5.5, -3, float(max(-12, min(14, round(c[1] / 15.0))))])
         ctx.count('location:tz_' + ('none' if tz is None else 'zero' if tz == 0 else 'other'))
-        yield 'location', _cfg_inp(c, tz=tz, moy=_rand_moy(rng, c[4], bm),
-                                   how=rng.choice(['ctor', 'setters', 'duplicate', 'dict', 'idf', 'from_location']))
+        how = rng.choice(LOCATION_HOWS)
+        ctx.count('location:how_' + how)
+        yield 'location', _cfg_inp(c, tz=tz, moy=_rand_moy(rng, c[4], bm), how=how, fmt=rng.choice(NUM_FORMATS))
+    # round 4: constructor shapes (defaults, keywords)
+    for _ in range(600 if not big else 6000):
+        c = _rand_cfg(rng)
+        tz = c[2] if c[2] is not None else rng.choice([None, 0.0, 3.0])
+        yield 'defaults', _cfg_inp(c, tz=tz, moy=_rand_moy(rng, c[4], bm), shape=rng.choice(CTOR_SHAPES))
+    # round 4: native datetimes of any year 1950-2050; daylight-saving hours
+    for _ in range(2500 if not big else 25000):
+        c = _rand_cfg(rng)
+        r = _rand_native(rng, bm)
+        solar = rng.random() < 0.2 and _solar_ok(c)
+        ctx.count('pydt:' + ('sunpath_year' if r.year in (2016, 2017) else 'other_year') + (':leap_sunpath' if c[4] else ''))
+        yield 'pydt', _cfg_inp(c, y=r.year, mo=r.month, d=r.day, h=r.hour, mi=r.minute, solar=solar)
+    for _ in range(2500 if not big else 25000):
+        c = _rand_cfg(rng)
+        dsp = _rand_dsp(rng)
+        m = _rand_dst_moy(rng, c[4], dsp, bm)
+        solar = rng.random() < 0.35 and _solar_ok(c)
+        if _dst_flag(c[4], dsp, m):
+            ctx.count('dst:inside' + (':solar' if solar else '') + (':first_hour' if m % 1440 < 60 else ''))
+        else:
+            ctx.count('dst:outside')
+        yield 'dst', _cfg_inp(c, dsp=list(dsp), moy=m, solar=solar)
     for _ in range(200 if not big else 2000):
         c = _rand_cfg(rng)
         n = 1440 * _ydays(c[4])
@@ -1917,7 +2656,10 @@ LEVEL_TEXT = ('Machine-checked Lean 4 theorems over the real-number instance of 
               'angle ranges; the 2016/2017 day-count literals equal the general formula; solar noon maximises the '
               'geometric altitude for a fixed declination; one object under any history of setters, reads and other '
               'methods is the fresh object of the established configuration (no numeric setter refused), reads are pure, '
-              'refused reads / unconvertible arguments change nothing, the getters determine the object; COUNTEREXAMPLE: '
+              'refused reads / unconvertible arguments change nothing, the getters determine the object; a native datetime '
+              'gives the sun of the DateTime of the same instant (on a leap-year sunpath: of the 2016 DateTime, whatever its year); '
+              'a daylight-saving hour is the standard hour of the zone one hour east; both arms of the hour-angle line give the same '
+              'cosine and the negative-solar-time arm is reached only in a daylight-saving hour; COUNTEREXAMPLE: '
               'a numeric setter refused by its assertion keeps the refused value (known finding). PARTIAL: agreement with the independent ephemeris '
               '(0.05 deg), time-zone shift invariance and the noon claim on the real code are sampled sub-claims.')
 LEVEL_NOTE = ('Trusted: Lean kernel; axioms propext/Classical.choice/Quot.sound only; correspondence on generated '
